@@ -256,10 +256,10 @@ func (p *Prog) verifyFunction(fn *ssa.Function, spec *FuncSpec) *FuncResult {
 		c := "p_" + sanitize(name)
 		vc.emit("(declare-const %s %s)", c, vc.sortOf(prm.Type()))
 		v := &Val{T: c, Ty: prm.Type()}
-		vc.assume(vc.rangeFact(c, prm.Type()))
+		vc.valueFacts(c, prm.Type())
 		if i == 0 && sig.Recv() != nil {
 			if _, isPtr := prm.Type().Underlying().(*types.Pointer); isPtr {
-				vc.assume(fmt.Sprintf("(and (not (= %s 0)) (select alloc@0 %s))", c, c))
+				vc.assume(fmt.Sprintf("(and (> %s 0) (< %s alloc@0))", c, c))
 				vc.used.Assumes["method receivers are non-nil allocated objects"] = true
 			}
 		}
